@@ -27,6 +27,7 @@ func runC19(c *Ctx) {
 	c19Tamper(c, ge)
 	c19Frame(c, ge)
 	c19MacTrailer(c)
+	c19Direction(c)
 	c19Registries(c)
 	c19Handshake(c, ge)
 }
